@@ -1,5 +1,7 @@
 import Gallia.Proofs.Lemmas.UdsResp
 import Gallia.Gen.C02Registry
+import Gallia.Proofs.Lemmas.UdsRespCtor
+import Gallia.Gen.C02Ctor
 /-
   C02 — Decoded UDS responses expose the received fields and re-encode to the same bytes.
   Property theorems only; helper lemmas are in `Proofs/Lemmas/UdsResp.lean`.
@@ -515,5 +517,72 @@ theorem defect_inputs_rejected :
     decodeResp [0x7D, 0x11, 0xAA, 0xBB, 0xCC] = .error .format ∧ decodeResp [0x6C, 0x03, 0xAA] = .error .format ∧
     decodeResp [0x59, 0x02, 0xFF, 0, 0, 1, 8, 0, 0, 1, 9] = .error .format :=
   ⟨by eval_dec, by eval_dec, by eval_dec, by eval_dec, by eval_dec⟩
+
+
+/-! ### the constructor side: what gallia itself builds (`__init__` + `.pdu`) -/
+
+/-- (T) the parameter lists of every registry class's `__init__` are the ones the model's `Fields` stand for -/
+theorem ctorSigs_agree : Gen.C02Ctor.ctorSigs = ctorSigRows := by decide
+
+/-- (T) the InputOutputControlByIdentifier convenience classes and the control parameter each prepends -/
+theorem convClasses_agree : Gen.C02Ctor.convClasses = convClasses := by decide
+
+/-- every object a constructor accepts is a well-formed typed response (never raw), of the parser family of its class -/
+theorem construct_wf (cls : String) (f : Fields) (r : Resp) (h : construct cls f = some r) :
+    r.WF ∧ ∃ e ∈ registry, e.cls = cls ∧ r.kind? = some e.kind := by
+  obtain ⟨e, he, hcls, hc⟩ := construct_entry h
+  exact ⟨constructE_wf he hc, e, he, hcls, constructE_kind hc⟩
+
+/-- for every class and every field valuation the constructor accepts, the parser reads the constructed PDU back as
+    exactly the constructed object (same constructor, same field values), and re-serialising gives the same bytes.
+    Full statement `construct_exposes` (`exposed r = some f` for calls in the form `_from_pdu` uses, `Fields.Canon f`)
+    is not proved in Lean; the tie compares the object's own attributes with the parsed-back ones on every
+    canonical call. -/
+theorem construct_pdu_parses_back (cls : String) (f : Fields) (r : Resp) (h : construct cls f = some r) :
+    decodeResp (encodeResp r) = .ok r := decodeResp_encodeResp r (construct_wf cls f r h).1
+
+/-- the constructed PDU dispatches to a registry class of the constructing class's parser family, satisfies that
+    class's length rule and sub-function gate, and is neither rejected nor kept raw -/
+theorem construct_pdu_wf (cls : String) (f : Fields) (r : Resp) (h : construct cls f = some r) :
+    ∃ e, dispatch (encodeResp r) = .ok (some e) ∧ e.minLen ≤ (encodeResp r).length ∧
+      (∀ m, e.maxLen = some m → (encodeResp r).length ≤ m) ∧ subGate e (encodeResp r) = .ok () ∧
+      r.kind? = some e.kind ∧ decodeResp (encodeResp r) ≠ .ok (.rawPos (encodeResp r)) := by
+  obtain ⟨hwf, e0, _, _, hk⟩ := construct_wf cls f r h
+  have hdec := decodeResp_encodeResp r hwf
+  have hne : r.kind? ≠ none := by rw [hk]; simp
+  obtain ⟨e, hd, hl, hs, _⟩ := decodeResp_typed hdec hne
+  have hlen := lenGate_ok hl
+  refine ⟨e, hd, hlen.1, hlen.2, hs, decodeResp_kind _ r e hdec hd, ?_⟩
+  rw [hdec]
+  intro hc
+  injection hc with hc
+  rw [hc] at hne
+  simp [Resp.kind?] at hne
+
+/-- where the bytes are equal the objects are equal: two accepted constructor calls (of any classes) that serialise
+    to the same PDU built the same typed object - same class family, same value in every field.
+    Partial: stated on the built objects; the step from the object back to the call's arguments (`construct_exposes`,
+    injectivity of the canonical calls themselves) is not proved. -/
+theorem construct_injective_partial (c₁ c₂ : String) (f₁ f₂ : Fields) (r₁ r₂ : Resp)
+    (h₁ : construct c₁ f₁ = some r₁) (h₂ : construct c₂ f₂ = some r₂) (hb : encodeResp r₁ = encodeResp r₂) : r₁ = r₂ := by
+  have d₁ := construct_pdu_parses_back c₁ f₁ r₁ h₁
+  have d₂ := construct_pdu_parses_back c₂ f₂ r₂ h₂
+  rw [hb, d₂] at d₁
+  cases d₁; rfl
+
+/-- the constructor-side defects found by this check stay refused: empty ReadMemoryByAddress / ReadDataByIdentifier
+    records, a second record in a first / most-recent DTC report, an extended-data answer without a record number -/
+theorem ctor_defect_inputs_refused :
+    construct "ReadMemoryByAddressResponse" (.rmba []) = none ∧
+    construct "ReadDataByIdentifierResponse" (.rdbi [0x1234] [[]]) = none ∧
+    construct "ReadDataByIdentifierResponse" (.rdbi [] []) = none ∧
+    construct "ReportFirstTestFailedDTCResponse" (.dtcListD 0xFF [(1, 2), (3, 4)]) = none ∧
+    construct "ReportDTCExtDataRecordByDTCNumberResponse" (.dtcExtT 1 2 []) = none := by decide
+
+example : construct "WriteMemoryByAddressResponse" (.wmba 0x1234 1 (some 0x12)) = some (.wmba 0x12 0x1234 1) := by decide
+example : construct "ReadDataByIdentifierResponse" (.rdbi [1, 2] [[0x61], [0x62]]) = some (.rdbi 1 [0x61, 0, 2, 0x62]) := by decide
+example : construct "ReportDTCByStatusMaskResponse" (.dtcListD 0xFF [(1, 2), (3, 4)]) = some (.dtcList 2 0xFF [(1, 2), (3, 4)]) := by
+  decide
+example : construct "RequestDownloadResponse" (.upDownload 0x1234 (some 0x40)) = some (.upDownload 0x74 0x40 0x1234) := by decide
 
 end Gallia.C02
